@@ -12,7 +12,7 @@ import (
 func init() {
 	core.Register(&core.Prop{
 		ID: "C10", Level: "exploration",
-		Rule: "each case draws node lists A,B over a 5-id universe and 2 edge types in one of seven pair classes (independent, disjoint, nested, identical, cyclic, ill-formed, near-equal nodes that differ only in sub-second date parts and list order), shared nodes with reflection-populated attributes. " +
+		Rule: "each case draws node lists A,B over a 5-id universe and 2 edge types (a quarter of the cases: identifiers and type numbers that concatenate alike, 4 edge types) in one of seven pair classes (independent, disjoint, nested, identical, cyclic, ill-formed, near-equal nodes that differ only in sub-second date parts and list order), shared nodes with reflection-populated attributes. " +
 			"Monitored on X=A.Intersect(B): ids(X)=ids(A)∩ids(B); roots(X) within (roots(A)∪roots(B))∩ids(X) and containing roots(A)∩roots(B)∩ids(X); edge triples of X within (E(A)∪E(B)) restricted to ids(X) and containing (E(A)∩E(B)) restricted; " +
 			"idempotence, commutativity (equal sets), absorption ids(A∩(A∪B))=ids(A), emptiness against the empty list, attribute precedence per schema field (argument wins when non-empty). " +
 			"distinct = hash of canonical (A,B); non-trivial = at least one shared node.",
@@ -104,6 +104,7 @@ func c10Pair(c *core.C) (*sbom.NodeList, *sbom.NodeList, string) {
 }
 
 func c10Case(c *core.C) {
+	c.Cover(c09Universe(c.K))
 	A, B, class := c10Pair(c)
 	c.Cover("class:" + class)
 	det := map[string]any{"A": gen.Canon(A), "B": gen.Canon(B), "class": class}
